@@ -11,7 +11,7 @@ from . import repo_common as rc
 from .. import harness, repodrv
 
 LEVEL = 'model_checking'
-CLAUSES = ['P:UploadOnlyIfAbsent', 'P:DedupExact', 'P:NoAlias']
+CLAUSES = ['P:UploadOnlyIfAbsent', 'P:RepeatTransfersNothing', 'P:DedupExact', 'P:NoAlias']
 
 
 def repeats(run, graphs, seeds, concurrents):
